@@ -115,12 +115,13 @@ impl Sm9EncMasterKey {
         c1 = c1.point_add(&self.ppube);
 
         let mut k = vec![];
+        let q = c1;
         loop {
             // A2: rand r in [1, N-1]
             let r = sm9_random_u256(&SM9_N_MINUS_ONE);
 
             // A3: C1 = r * Q
-            c1 = c1.point_mul(&r);
+            c1 = q.point_mul(&r);
             let cbuf = c1.to_bytes_be();
             let cbuf = cbuf.as_slice();
 
@@ -445,6 +446,7 @@ pub fn exch_step_1b(
     let mut r = SM9_POINT_MONT_P1.point_mul(&rb);
     r = r.point_add(&msk.ppube);
     let mut sk = vec![];
+    let q = r;
     loop {
         // B2: rand rB in [1, N-1]
         rb = sm9_random_u256(&SM9_N_MINUS_ONE);
@@ -452,7 +454,7 @@ pub fn exch_step_1b(
         // rb = u256_from_hex("00018B98C44BEF9F8537FB7D071B2C928B3BC65BD3D69E1EEE213564905634FE");
 
         // B3: RB = rB * Q
-        r = r.point_mul(&rb);
+        r = q.point_mul(&rb);
 
         // B4: check RA on curve; G1 = e(RA, deB), G2 = e(Ppube, P2) ^ rB, G3 = G1 ^ rB
         if !ra.is_on_curve() {
